@@ -57,13 +57,31 @@ def argmax(
     # ----------------------------------------------------------------------------------
     # Note: If multiple maxima exist, this approach will select the first index.
     # ==================================================================================
-    _max = jnp.max(a, axis=-1, keepdims=True, initial=initial, where=where)
-    max_value_mask = a == _max
+    # The position is determined with jnp.argmax and the maximum is read at that
+    # position. Comparing `a` with a separately computed maximum is not reliable when
+    # `a` is the result of a fused computation, since the compiler may evaluate it twice
+    # with different rounding.
+    # ==================================================================================
     if where is not None:
-        max_value_mask = jnp.logical_and(max_value_mask, where)
-    argmax = jnp.argmax(max_value_mask, axis=-1)
+        if jnp.issubdtype(a.dtype, jnp.floating):
+            lowest = -jnp.inf
+        else:
+            lowest = jnp.iinfo(a.dtype).min
+        a = jnp.where(where, a, lowest)
 
-    return argmax, _max.reshape(argmax.shape)
+    argmax = jnp.argmax(a, axis=-1)
+    _max = jnp.take_along_axis(a, argmax[..., None], axis=-1)[..., 0]
+
+    if where is not None:
+        # If the maximum equals the fill value, a masked element may have been selected;
+        # in this case we select the first unmasked element (0 if all are masked).
+        selected = jnp.take_along_axis(where, argmax[..., None], axis=-1)[..., 0]
+        argmax = jnp.where(selected, argmax, jnp.argmax(where, axis=-1))
+
+    if initial is not None:
+        _max = jnp.maximum(_max, initial)
+
+    return argmax, _max
 
 
 def _move_axes_to_back(a: Array, axes: tuple[int, ...]) -> Array:
